@@ -251,10 +251,11 @@ func walkStrings(v reflect.Value, sb *strings.Builder, depth int) {
 
 // Case is one run of the filter on one shape.
 type Case struct {
-	Shape     *Node
-	Overrides map[encrypt.DataClassification]encrypt.FilterOperation
-	Wrapper   string // present | absent | fail@k
-	FailAt    int
+	CancelledCtx bool // Process is called with an already cancelled context
+	Shape        *Node
+	Overrides    map[encrypt.DataClassification]encrypt.FilterOperation
+	Wrapper      string // present | absent | fail@k
+	FailAt       int
 }
 
 // Result of one case.
@@ -269,14 +270,24 @@ type Result struct {
 }
 
 // Run executes the filter on the case's payload and evaluates all oracles.
-func Run(c Case) *Result {
+func Run(c Case) *Result { return RunOn(nil, c) }
+
+// RunOn is Run on an existing filter instance (histories on one filter); the
+// case's overrides are installed on it first.
+func RunOn(reuse *encrypt.Filter, c Case) *Result {
 	cfg := Config{Overrides: c.Overrides}
 	b := Build(c.Shape, cfg)
 	twin := Build(c.Shape, cfg)
 	base := NewWrapper(7)
 	f := &encrypt.Filter{FilterOperationOverrides: c.Overrides, HmacSalt: []byte("salt-f"), HmacInfo: []byte("info-f")}
+	if reuse != nil {
+		f = reuse
+		f.FilterOperationOverrides = c.Overrides
+		f.HmacSalt, f.HmacInfo = []byte("salt-f"), []byte("info-f")
+	}
 	var fw *FailingWrapper
 	switch c.Wrapper {
+	case "keep":
 	case "present":
 		f.Wrapper = base
 	case "fail":
@@ -297,7 +308,13 @@ func Run(c Case) *Result {
 				r.Problems = append(r.Problems, Problem{"leak", fmt.Sprintf("the filter panicked: %v", p)})
 			}
 		}()
-		r.Out, r.Err = f.Process(context.Background(), in)
+		ctx := context.Background()
+		if c.CancelledCtx {
+			cc, cancel := context.WithCancel(ctx)
+			cancel()
+			ctx = cc
+		}
+		r.Out, r.Err = f.Process(ctx, in)
 	}()
 	// C10: the input is untouched
 	if !reflect.DeepEqual(in.Payload, twin.Value.Interface()) {
@@ -311,6 +328,13 @@ func Run(c Case) *Result {
 	}
 	if r.Out == nil {
 		return r
+	}
+	// C10: the forwarded event must not share its format table with the original
+	if r.Out != in {
+		r.Out.FormattedAs("verif-probe", []byte("x"))
+		if _, aliased := in.Format("verif-probe"); aliased {
+			r.Problems = append(r.Problems, Problem{"copy", "the forwarded event shares its Formatted table with the event Process was given: formatting the copy downstream modifies the original"})
+		}
 	}
 	kb, _ := base.KeyBytes(context.Background())
 	r.Problems = append(r.Problems, CheckOutput(b, r.Out.Payload, KeyCtx{Wrapper: base, KeyBytes: kb, Salt: []byte("salt-f"), Info: []byte("info-f")})...)
